@@ -207,6 +207,24 @@ def run(light=False):
         replay.replay(cs, scn, graph, rec, max_states=8, foreign=False)
         rec.close()
         evs = [json.loads(l) for l in open(trace)]
+        # the recorded log follows the published event schema (checked with jsonschema from the tooling venv)
+        import subprocess
+        code = ("import json,jsonschema,sys\n"
+                "s=json.load(open(sys.argv[1]))\n"
+                "n=0\n"
+                "for l in open(sys.argv[2]):\n"
+                "    jsonschema.validate(json.loads(l), s); n+=1\n"
+                "print('schema ok for', n, 'events')\n")
+        schema = os.path.join(os.path.dirname(os.path.abspath(__file__)), "trace.schema.json")
+        try:
+            p = subprocess.run(["python3-vt", "-c", code, schema, trace], stdout=subprocess.PIPE, stderr=subprocess.PIPE,
+                               text=True, timeout=300)
+            if p.returncode != 0:
+                print("selftest: recorded trace does not follow harness/trace.schema.json: " + p.stderr[-400:])
+                return 2
+            print("selftest: " + p.stdout.strip())
+        except FileNotFoundError:
+            print("selftest: python3-vt not available, schema validation skipped")
         clean = _one((0, "clean", tla, trace, set()))
         if clean[1]:
             print("selftest: the unmodified trace already fails: %s" % (clean[1],))
